@@ -189,36 +189,58 @@ def lookalikes(dialect):
     return {k: sorted(v) for k, v in out.items()}
 
 
-def lookalike_texts(dialect, rng, n):
-    """accepted statements of the corpus with a keyword token respelled with case-folding look-alikes: the lexer
-    yields the same token types (the model proves it on the regenerated sets), so everything behind the lexer that
-    looks at the token TEXT (lower()/upper() tables, comparisons) meets characters it may not expect"""
-    la = lookalikes(dialect)
-    if not la:
-        return
+_OCC = {}
+
+
+def _occurrences(dialect):
+    """keyword token type -> [(text, index, end)] over the corpus statements the live lexer tokenizes"""
+    if dialect in _OCC:
+        return _OCC[dialect]
     from mindsdb_sql import get_lexer_parser
     lexer_cls = get_lexer_parser(dialect)[0]
     lexer_cls = lexer_cls if isinstance(lexer_cls, type) else type(lexer_cls)
-    corp = corpus.load()
     plain = ('ID', 'QUOTE_STRING', 'DQUOTE_STRING', 'INTEGER', 'FLOAT', 'VARIABLE', 'SYSTEM_VARIABLE')
-    made, tries = 0, 0
-    while made < n and tries < 20 * n:
-        tries += 1
-        text = rng.choice(corp)
+    occ = {}
+    for text in corpus.load():
         try:
             toks = [t for t in lexer_cls().tokenize(text)]
         except (Exception, common.HangDetected):
             continue
-        cands = [t for t in toks if t.type not in plain and any(c in la for c in text[t.index:t.end])]
-        if not cands:
-            continue
-        t = rng.choice(cands)
-        word = list(text[t.index:t.end])
-        idx = [i for i, c in enumerate(word) if c in la]
-        for i in (idx if rng.random() < 0.3 else [rng.choice(idx)]):
-            word[i] = rng.choice(la[word[i]])
-        made += 1
-        yield dict(src='lookalike:%s' % t.type, text=text[:t.index] + ''.join(word) + text[t.end:])
+        for t in toks:
+            if t.type not in plain:
+                occ.setdefault(t.type, []).append((text, t.index, t.end))
+    _OCC[dialect] = occ
+    return occ
+
+
+def lookalike_texts(dialect, rng, n):
+    """accepted statements of the corpus with a keyword token respelled with case-folding look-alikes: the lexer
+    yields the same token types (the model proves it on the regenerated sets), so everything behind the lexer that
+    looks at the token TEXT (lower()/upper() tables, comparisons) meets characters it may not expect.
+    Systematic over the token TYPES: every keyword type that has a look-alike letter is respelled in up to `per` different
+    statements (so a keyword that only one statement kind uses, e.g. the schedule words of CREATE JOB, is not left to chance)."""
+    la = lookalikes(dialect)
+    if not la:
+        return
+    occ = _occurrences(dialect)
+    types = sorted(tp for tp, xs in occ.items() if any(c in la for c in xs[0][0][xs[0][1]:xs[0][2]]))
+    per = max(1, n // max(1, len(types)))
+    for tp in types:
+        xs = occ[tp]
+        # prefer occurrences in different statement kinds (first word of the statement)
+        by_kind = {}
+        for x in xs:
+            by_kind.setdefault(x[0].split(None, 2)[:2].__repr__().lower(), []).append(x)
+        picks = [rng.choice(v) for v in by_kind.values()]
+        rng.shuffle(picks)
+        for text, i, e in picks[:max(per, 2)]:
+            word = list(text[i:e])
+            idx = [k for k, c in enumerate(word) if c in la]
+            if not idx:
+                continue
+            for k in (idx if rng.random() < 0.3 else [rng.choice(idx)]):
+                word[k] = rng.choice(la[word[k]])
+            yield dict(src='lookalike:%s' % tp, text=text[:i] + ''.join(word) + text[e:])
 
 
 _LEX = {}
@@ -239,7 +261,15 @@ def real(dialect, text):
             if t.end == t.index:
                 # a zero-length match: sly does not advance, the real loop would never end
                 return 'hang %d %s' % (t.index, t.type), 'hang'
-            toks.append('%s:%d:%d' % (t.type, t.index, t.end))
+            deco = ''
+            if dialect == 'mindsdb':
+                # decoration facts `Props/C19Lex.lean` assumes of MindsDBLexer.tokenize (value = source slice,
+                # lineno = 1 + newlines before index): a token that breaks one shows up as a divergence of the stream
+                if t.value != text[t.index:t.end]:
+                    deco += ':BADVALUE'
+                if t.lineno != 1 + text.count('\n', 0, t.index):
+                    deco += ':BADLINENO'
+            toks.append('%s:%d:%d%s' % (t.type, t.index, t.end, deco))
         return ('ok ' + ' '.join(toks)).strip(), 'ok'
     except LexError as e:
         return ('err %d ' % e.error_index + ' '.join(toks)).strip(), 'err'
